@@ -1,3 +1,2 @@
-CONSTANT SplitWrite = FALSE
 INIT Init
 NEXT Next
